@@ -12,10 +12,10 @@
     hypergeometric_new_ok_iff, hypergeometric_min_eq (saturating, never panics), max (no arithmetic),
     hypergeometric_pmf_no_underflow      — every `x` (the `x > draws` guard protects `draws - x`)
     hypergeometric_cdf_no_underflow, hypergeometric_sf_no_underflow — every `x` (the `min/max` guards bound the fold index)
-    hypergeometric_ln_pmf_no_underflow   — ONLY for `x ≤ draws`
-    hypergeometric_ln_pmf_underflow_counterexample — FALSE for `x > draws`: `draws - x` underflows (Rust panics in
-                            the overflow-checking profile); witness `new(10,5,3)`, `x = 4`.
-                            `pmf` on the same input returns `0.0`.
+    hypergeometric_ln_pmf_no_underflow   — every `x` (the new `x > draws` guard protects `draws - x`)
+    hypergeometric_ln_pmf_beyond_draws   — `ln_pmf(x) = -∞` (`RFun.negInf`) for every `x > draws`, no subtraction
+                            evaluated; instance `new(10,5,3)`, `x = 4` (the former panic witness):
+                            `ln_pmf = -∞`, `pmf = 0.0`.
     hypergeometric_mode_no_div_zero      — `population + 2 ≠ 0`
     mean/variance/skewness — no integer arithmetic at all (casts only): `*_none_iff`.
 
@@ -96,38 +96,43 @@ theorem hypergeometric_pmf_no_underflow (d : Hypergeometric) (h1 : d.f_successes
   · rfl
   · rw [usub_of_le h1, usub_of_le (by omega)]
 
-/-- `ln_pmf`: no underflow provided `x ≤ draws` -/
+/-- `ln_pmf`: no subtraction underflows, for EVERY `x` (the guard `x > draws` returns `-∞` before
+    `draws - x` is evaluated) -/
 theorem hypergeometric_ln_pmf_no_underflow (d : Hypergeometric) (h1 : d.f_successes ≤ d.f_population)
+    (x : Int) :
+    Hypergeometric.ln_pmf (α := α) d x
+      = if d.f_draws < x then (RFun.negInf : α)
+        else (SF.ln_binomial d.f_successes x
+              + SF.ln_binomial (d.f_population - d.f_successes) (d.f_draws - x))
+            - SF.ln_binomial d.f_population d.f_draws := by
+  unfold Hypergeometric.ln_pmf
+  split_ifs with hx
+  · rfl
+  · rw [usub_of_le h1, usub_of_le (by omega)]
+
+/-- `ln_pmf` inside `x ≤ draws` (the statement that used to need this restriction) -/
+theorem hypergeometric_ln_pmf_of_le (d : Hypergeometric) (h1 : d.f_successes ≤ d.f_population)
     (x : Int) (hx : x ≤ d.f_draws) :
     Hypergeometric.ln_pmf (α := α) d x
       = (SF.ln_binomial d.f_successes x
           + SF.ln_binomial (d.f_population - d.f_successes) (d.f_draws - x))
         - SF.ln_binomial d.f_population d.f_draws := by
-  unfold Hypergeometric.ln_pmf
-  rw [usub_of_le h1, usub_of_le hx]
+  rw [hypergeometric_ln_pmf_no_underflow d h1 x, if_neg (by omega)]
 
-/-- `ln_pmf` beyond `draws`: the operand `draws - x` IS the panic sentinel, for every accepted
-    distribution and every `x > draws` (general form of the counterexample) -/
-theorem hypergeometric_ln_pmf_underflow (d : Hypergeometric) (x : Int) (hx : d.f_draws < x) :
-    usub d.f_draws x = panicInt ∧
-    Hypergeometric.ln_pmf (α := α) d x
-      = (SF.ln_binomial d.f_successes x
-          + SF.ln_binomial (usub d.f_population d.f_successes) panicInt)
-        - SF.ln_binomial d.f_population d.f_draws := by
-  refine ⟨usub_of_lt hx, ?_⟩
+/-- `ln_pmf` beyond `draws`: `-∞` for every distribution (no hypothesis on the fields) and every
+    `x > draws`; neither `draws - x` nor `population - successes` is evaluated. -/
+theorem hypergeometric_ln_pmf_beyond_draws (d : Hypergeometric) (x : Int) (hx : d.f_draws < x) :
+    Hypergeometric.ln_pmf (α := α) d x = (RFun.negInf : α) := by
   unfold Hypergeometric.ln_pmf
-  rw [usub_of_lt hx]
+  rw [if_pos hx]
 
-/-- COUNTEREXAMPLE to panic-freedom: `Hypergeometric::new(10, 5, 3)` is accepted, `x = 4` is a legal
-    `u64`, and `ln_pmf(4)` evaluates `draws - x = 3 - 4` (Rust: subtraction-overflow panic; the model
-    yields the sentinel), whereas `pmf(4)` is guarded and returns `0.0`. -/
-theorem hypergeometric_ln_pmf_underflow_counterexample :
+/-- the former panic witness: `Hypergeometric::new(10, 5, 3)` is accepted, `x = 4 > draws`:
+    `ln_pmf(4) = -∞` and `pmf(4) = 0.0` (both guarded, consistent: `ln 0 = -∞`). -/
+theorem hypergeometric_ln_pmf_beyond_draws_instance :
     Hypergeometric.new (α := α) 10 5 3 = .ok ⟨10, 5, 3⟩ ∧
-    usub (⟨10, 5, 3⟩ : Hypergeometric).f_draws 4 = panicInt ∧
-    Hypergeometric.ln_pmf (α := α) ⟨10, 5, 3⟩ 4
-      = (SF.ln_binomial 5 4 + SF.ln_binomial 5 panicInt) - SF.ln_binomial 10 3 ∧
+    Hypergeometric.ln_pmf (α := α) ⟨10, 5, 3⟩ 4 = (RFun.negInf : α) ∧
     Hypergeometric.pmf (α := α) ⟨10, 5, 3⟩ 4 = (0.0 : α) := by
-  refine ⟨rfl, rfl, rfl, ?_⟩
+  refine ⟨rfl, hypergeometric_ln_pmf_beyond_draws _ 4 (by decide), ?_⟩
   unfold Hypergeometric.pmf
   rw [if_pos (by decide)]
 
